@@ -1064,6 +1064,17 @@ func (env *SpecEnv) addrOf(e ast.Expr) Val {
 			}
 		}
 		specFail("no field %s", x.Sel.Name)
+	case *ast.Ident:
+		// a captured variable: the closure holds its address
+		st := env.cur()
+		for _, fv := range st.fr.fn.FreeVars {
+			if fv.Name() == x.Name {
+				if v, ok := st.fr.regs[fv]; ok && v.P != nil {
+					return v
+				}
+			}
+		}
+		specFail("&%s: not a captured variable", x.Name)
 	}
 	specFail("unsupported & operand")
 	return Val{}
@@ -1534,6 +1545,14 @@ func (env *SpecEnv) evalCall(x *ast.CallExpr) Val {
 		name, _ := strconv.Unquote(lit.Value)
 		tag := env.st.ctx.eng.tagByName(name)
 		return boolVal(Eq(v.L[0], I(tag)))
+	case "tagof":
+		// tagof("pkg.T"): the type tag interface values of dynamic type T carry (what typetag(x) yields for them)
+		lit, ok := x.Args[0].(*ast.BasicLit)
+		if !ok {
+			specFail("tagof needs a string literal type name")
+		}
+		name, _ := strconv.Unquote(lit.Value)
+		return intVal(I(env.st.ctx.eng.tagByName(name)))
 	case "payload":
 		v := arg(0)
 		if len(v.L) != 2 {
